@@ -94,6 +94,7 @@ def c12(tier):
     selftest.run(P, C, ('mt',))
     mt.run(P, C)
     mt.mt9(P, C)
+    mt.mt10(P, C)
     C.extra["units"] = sorted(P.units.keys())
     return C.finish()
 
